@@ -187,6 +187,14 @@ func (w *W) marshalAll(t *gcore.Type, id string, c *dynamicpb.Message, report bo
 	if !multiEntryMap(c) && !bytes.Equal(win, b) {
 		w.fail(t, "C04/MarshalTo-differs-from-Marshal", id, fmt.Sprintf("MarshalTo=%s Marshal=%s", hexs(win), hexs(b)), nil)
 	}
+	// Size / Marshal / MarshalTo are read-only: the messages they were called on still hold the tree they were built from
+	for _, msg := range []any{x, z} {
+		if back, terr := gcore.TreeOf(t, msg); terr != nil {
+			w.fail(t, "C04/message-unreadable-after-Marshal", id, terr.Error(), nil)
+		} else if df := gcore.Diff(c, back); df != "" {
+			w.fail(t, "C04/message-modified-by-Size-or-Marshal", id, df, nil)
+		}
+	}
 	// through csproto's dispatcher on fresh copies
 	u, _ := build(t, c)
 	var cs int
